@@ -727,6 +727,10 @@ fn run_case(line: &str) -> String {
                 b.map(|b| b.to_string()).unwrap_or("PANIC".into())
             )
         }
+        "Z" => {
+            std::thread::sleep(std::time::Duration::from_millis(rest.trim().parse().unwrap_or(0)));
+            "slept".into()
+        }
         "V" => {
             let mut t = Toks {
                 v: rest.split(' ').collect(),
